@@ -94,7 +94,7 @@ def parse_template(text):
                     # //@@ letexpr <file> <fn> <var> params=a:&T;b:U ret=r:TYPE [tags=..]
                     cur = Directive('letexpr', words[1], words[2] + ' ' + words[3], parse_opts([w for w in words[4:] if '=' in w]), i + 1)
                 elif head == 'fn':
-                    cur = Directive('fn', words[1], ' '.join(w for w in words[2:] if '=' not in w and w not in ('trusted', 'n5', 'n6')), parse_opts([w for w in words[2:] if '=' in w or w in ('trusted', 'n5', 'n6')]), i + 1)
+                    cur = Directive('fn', words[1], ' '.join(w for w in words[2:] if '=' not in w and w not in ('trusted', 'n5', 'n6', 'n7')), parse_opts([w for w in words[2:] if '=' in w or w in ('trusted', 'n5', 'n6', 'n7')]), i + 1)
                 elif head in ('type', 'const', 'alias', 'static', 'trait'):
                     d = Directive(head, words[1], words[2], parse_opts(words[3:]), i + 1)
                     out.append(('dir', d))
@@ -728,6 +728,18 @@ def build_fn(gen, d):
                     return after
                 return re.sub(r'String::from\(("(?:[^"\\]|\\.)*")\)\s*\+\s*&(\w+)', sub, txt)
             pieces = [(p[0], n5(p[1])) if p[0] == 'src' else p for p in pieces]
+        if 'n7' in opts:
+            # N7: `x.map(|v| v as T)` on an Option  ->  `(match x { Some(v) => Some(v as T), None => None })`: the definition of Option::map
+            # applied to a closure Verus cannot be told the meaning of without annotating it.  Only this exact shape (a plain variable, a
+            # cast of the closure's own parameter) is rewritten.
+            def n7(txt):
+                def sub(mm):
+                    after = '(match %s { Some(%s) => Some(%s as %s), None => None })' % (mm.group(1), mm.group(2), mm.group(2), mm.group(3))
+                    gen.n1_log.append({'function': name, 'rule': 'N7', 'before': mm.group(0), 'after': after})
+                    gen.drops['N7_option_map_cast'] = gen.drops.get('N7_option_map_cast', 0) + 1
+                    return after
+                return re.sub(r'\b(\w+)\.map\(\|(\w+)\|\s*\2 as (\w+)\)', sub, txt)
+            pieces = [(p[0], n7(p[1])) if p[0] == 'src' else p for p in pieces]
         if any(b.kind == 'n1' for b in d.blocks):
             # N1 applied on source pieces only
             pieces = [(p[0], split_n1(p[1], gen, name)) if p[0] == 'src' else p for p in pieces]
